@@ -413,7 +413,15 @@ func appendedCell(f *core.Func) *gateCell {
 // gateWalk walks the action of p with the gate's functions as events and the
 // helpers that reach them inlined (cached).
 func (c *Ctx) gateWalk(g *gateInfo, p *Production) *actionWalk {
-	key := fmt.Sprintf("gateWalk:%d", p.N)
+	return c.gateWalkWith(g, p, nil)
+}
+
+// gateWalkWith is gateWalk that also follows the helpers of the package that
+// return a value of type also (the type of the grammar's value member): what
+// such a helper does to the members of the value it is handed, or builds, is
+// then seen on the paths instead of being an opaque result.
+func (c *Ctx) gateWalkWith(g *gateInfo, p *Production, also types.Type) *actionWalk {
+	key := fmt.Sprintf("gateWalk:%d:%v", p.N, also != nil)
 	if v, ok := c.cache[key]; ok {
 		return v.(*actionWalk)
 	}
@@ -453,7 +461,22 @@ func (c *Ctx) gateWalk(g *gateInfo, p *Production) *actionWalk {
 		return ""
 	}, func(h *core.Func) bool {
 		e := c.effective(h)
-		return reach[h] && e != g.enter && e != g.leave
+		if e == g.enter || e == g.leave {
+			return false
+		}
+		if reach[h] {
+			return true
+		}
+		if also != nil && h.Obj != nil {
+			if sig, ok := h.Obj.Type().(*types.Signature); ok {
+				for i := 0; i < sig.Results().Len(); i++ {
+					if types.Identical(sig.Results().At(i).Type(), also) {
+						return true
+					}
+				}
+			}
+		}
+		return false
 	})
 	c.cache[key] = w
 	return w
@@ -1222,9 +1245,13 @@ func ruleRV1() Rule {
 							if _, isLit := ast.Unparen(r).(*ast.CompositeLit); isLit {
 								ok = false
 							}
-							if call, isCall := ast.Unparen(r).(*ast.CallExpr); isCall {
-								_ = call
+							if _, isCall := ast.Unparen(r).(*ast.CallExpr); isCall {
 								ok = false
+							}
+							if id, isId := ast.Unparen(r).(*ast.Ident); isId {
+								if v, isVar := f.Info().Uses[id].(*types.Var); isVar && isParamOf(f, v) {
+									ok = false
+								}
 							}
 						}
 					}
@@ -1256,7 +1283,11 @@ func ruleRV1() Rule {
 				// follow the action (helpers that open or close the gate inlined): on every path the
 				// name member of the final $$ is the empty string, or comes out of a helper whose
 				// results never carry a name
-				if w := c.gateWalk(g, p); w.why == "" && len(w.paths) > 0 && w.yyval != nil {
+				var memberType types.Type
+				if v := c.fieldVar("interp", "yySymType", member); v != nil {
+					memberType = v.Type()
+				}
+				if w := c.gateWalkWith(g, p, memberType); w.why == "" && len(w.paths) > 0 && w.yyval != nil {
 					verdict := ""
 					for _, path := range w.paths {
 						v := path.env[w.yyval]
